@@ -10,7 +10,7 @@ import json
 import os
 import random
 
-from lib import vf, toks, suite
+from lib import vf, toks, suite, expand
 from gen import soup
 from checks import c08
 
@@ -187,6 +187,11 @@ def main():
     for k, rec in enumerate(srecs):
         add_event(f"suite{k:03d}", rec, "suite:" + os.path.basename(rec["file"]))
     bad, drift = vf.validate(chk, "Trace_C02", events, timeout=2400)
+    # the end-to-end pipeline model (spec/Expand.tla): design invariants by TLC, then every recorded invocation of this check
+    # (catalogue bodies, random corpus, the repository's suite) must have the shape the model computes for it
+    expand.model_check(chk, thorough)
+    expand.conformance(chk, srecs, "suite")
+    expand.conformance(chk, recs, "corpus")
     chk.cov["evaluations"] = len(events)
     kinds = {}
     for m in meta.values():
